@@ -54,13 +54,16 @@ prop("C09", "nitrocheck",
      level_note=SEQ_NOTE)
 
 prop("C10", "nitrocheck",
-     [dict(name="TestC10", quick=700, thorough=3000, steps=40)],
+     [dict(name="TestC10", quick=700, thorough=3000, steps=40),
+      dict(name="TestC10Conc", quick=300, thorough=1500, steps=30)],
      rule="rapid state machine: histories with bulk puts/deletes (0-300 items, multi-version, older snapshots held open) and Visitor(snapshot, shards 1-40 or > item count, "
           "concurrency 1-8) with a callback error injected at a drawn (shard,index) in a quarter of the visits; oracle: concatenation of the per-shard callback sequences in "
           "shard order == the snapshot's frozen content; injected error => that error is returned; returns within a 20 s watchdog. Non-trivial: >=2 non-empty shards while "
           "versions invisible to the visited snapshot are physically present (they become pivots), or shards > item count, or an error injected in a non-first shard. "
-          "Distinct = distinct hash of the rendered history.",
-     technique="model-based stateful property testing (shard concatenation vs frozen content, error injection)",
+          "Distinct = distinct hash of the rendered history. TestC10Conc: 1-4 free-running reader goroutines call Visitor (shards 1-12, concurrency 1-4) in a loop on snapshots "
+          "they hold while the main goroutine keeps mutating, creating/closing other snapshots and forcing collection; every visit must concatenate to the snapshot's "
+          "content (non-trivial there as for C01: the visited snapshot had later deletes/re-inserts/retirements/collection).",
+     technique="model-based stateful property testing (shard concatenation vs frozen content, error injection); free-running concurrent visits sampled",
      design_ref="DESIGN.md §3 C10",
      level_text="Generated snapshots/shard counts/concurrency/error placements against the frozen content; termination observed through a generous watchdog.",
      level_note=SEQ_NOTE + " Shard ids >= the requested shard count are tolerated (the statement does not bound them).")
